@@ -53,6 +53,26 @@ def stateName (s : Int) : String :=
 /-- `wal_level_str()`: WAL_LEVEL_MINIMAL 0, REPLICA 1, LOGICAL 2 -/
 def walLevelNames : List String := ["minimal", "replica", "logical"]
 
+/-! ### which PostgreSQL wrote the file
+
+`pg_control_version` (PG_CONTROL_VERSION, pg_control.h) and `catalog_version_no` (CATALOG_VERSION_NO, catversion.h) are
+compile-time constants of the server.  PG_CONTROL_VERSION is 1201 in PostgreSQL 12 and 1300 in 13, 14, 15 and 16;
+CATALOG_VERSION_NO is bumped by every major release and never within a stable branch, so every released server of a
+major version writes the same pair.  (Values as in the REL_12..REL_16 stable branches; there is no PostgreSQL source in
+the sandbox to anchor them on — the only genuine file, a PostgreSQL 10 pg_control, carries 1002 / 201707211.) -/
+
+/-- (major version, PG_CONTROL_VERSION, CATALOG_VERSION_NO) of the released PostgreSQL 12–16 -/
+def pgReleases : List (Nat × Nat × Nat) :=
+  [(12, 1201, 201909212), (13, 1300, 202007201), (14, 1300, 202107181), (15, 1300, 202209061), (16, 1300, 202307071)]
+
+/-- the major version of the PostgreSQL 12–16 server that writes this pair of version numbers; `none` for a pair no
+released 12–16 server writes (older or newer servers, development snapshots, damaged files): the Spec is silent there -/
+def pgMajorOf (controlVersion catalogVersion : Nat) : Option Nat :=
+  (pgReleases.find? fun r => r.2.1 == controlVersion && r.2.2 == catalogVersion).map (·.1)
+
+example : pgMajorOf 1201 201909212 = some 12 ∧ pgMajorOf 1300 202107181 = some 14 ∧ pgMajorOf 1201 202107181 = none := by
+  decide
+
 /-! ### the control data -/
 
 structure ControlData where
